@@ -524,7 +524,7 @@ func c05Exec(ctx context.Context, fx *chainfx.Fixture, cfg chainfx.ChainCfg, blk
 func c05TxLevel(t *testing.T, r *kit.Run) {
 	ctx := context.Background()
 	rng := r.Rand("tx")
-	nWorlds := r.N(500, 8000)
+	nWorlds := r.N(500, 25000)
 	var nonce uint64
 	for wi := 0; wi < nWorlds && r.Violations() < 10; wi++ {
 		w := chainfx.NewWorld(rng, 6+rng.IntN(7), 3+rng.IntN(2), false, chainfx.LooseRules())
@@ -799,7 +799,7 @@ func TestC05(t *testing.T) {
 	// (3) random scoped sequences
 	rng := r.Rand("view")
 	vals := []string{"A", "B", "cur", ""}
-	nSeq := r.N(40000, 1200000)
+	nSeq := r.N(40000, 2500000)
 	for i := 0; i < nSeq && r.Violations() < 20; i++ {
 		c := c05ViewCase{Part: "view", Base: map[string]string{}}
 		for _, k := range universe {
